@@ -262,8 +262,37 @@ func WithClosures(fn *ssa.Function) []*ssa.Function {
 	}
 	// a method value used as a callback (`x.ForEach(self.flushEntry)`) plays the role of a
 	// closure: include the method the bound wrapper forwards to
+	add := func(t *ssa.Function) {
+		for _, o := range out {
+			if o == t {
+				return
+			}
+		}
+		out = append(out, t)
+	}
 	for _, b := range fn.Blocks {
 		for _, in := range b.Instrs {
+			// a callback handed over as a plain function value, or produced by a closure factory
+			// (`x.ForEach(absorbEntry(h))`): the function / the factory's closures play the same role
+			if ci, isCall := in.(ssa.CallInstruction); isCall {
+				for _, a := range ci.Common().Args {
+					if _, isSig := a.Type().Underlying().(*types.Signature); !isSig {
+						continue
+					}
+					switch x := a.(type) {
+					case *ssa.Function:
+						if x != fn && len(x.Blocks) > 0 && x.Synthetic == "" && InModule(x) {
+							add(x)
+						}
+					case *ssa.Call:
+						if h := x.Common().StaticCallee(); h != nil && h != fn && len(h.Blocks) > 0 && InModule(h) {
+							for _, af := range h.AnonFuncs {
+								add(af)
+							}
+						}
+					}
+				}
+			}
 			mc, ok := in.(*ssa.MakeClosure)
 			if !ok {
 				continue
@@ -550,6 +579,7 @@ type Guard func(c Cond) (ok bool, passWhenTrue bool)
 
 // PassEdges returns the pass edges of guard g in fn.
 func PassEdges(fn *ssa.Function, g Guard) []Edge {
+	g = AllForms(g)
 	var out []Edge
 	for _, c := range Conds(fn) {
 		ok, pt := g(c)
